@@ -1,7 +1,7 @@
 (* Val.v — values shared by every model layer.  Definitions only. *)
 From Coq Require Import List ZArith NArith Bool.
 Import ListNotations.
-Open Scope Z_scope.
+Local Open Scope Z_scope.
 
 Definition str := list N.                       (* code points *)
 
